@@ -97,6 +97,30 @@ def _cap(rng, grain: int, ngte: int, max_sectors: int = 6000) -> int:
     return max(1, min(c, max_sectors))
 
 
+def table_states(rng, ngr: int, ngte: int, alphabet: str) -> dict:
+    """Per-table structure: whole tables absent / sparse / dense, so absent tables sit next to populated ones."""
+    st = {}
+    nt = -(-ngr // ngte)
+    for t in range(nt):
+        mode = rng.choice(["absent", "absent", "dense", "sparse", "mixed"])
+        lo, hi = t * ngte, min((t + 1) * ngte, ngr)
+        if mode == "absent":
+            continue
+        if mode == "dense":
+            for g in range(lo, hi):
+                st[g] = "A"
+        elif mode == "sparse":
+            for _ in range(rng.randrange(1, 8)):
+                st[rng.randrange(lo, hi)] = "A"
+            st[rng.choice([lo, hi - 1])] = "A"
+        else:
+            for g in range(lo, hi):
+                s_ = rng.choice(alphabet)
+                if s_ != "U":
+                    st[g] = s_
+    return st
+
+
 def run(case: dict, ctx) -> dict:
     from dissect.hypervisor.disk.vmdk import VMDK
 
@@ -129,8 +153,16 @@ def run(case: dict, ctx) -> dict:
         if rng.random() < 0.4:
             desc = w.descriptor_text([f'RW {cap} SPARSE "x.vmdk"'], crlf=rng.random() < 0.3)
         zero_gte = rng.random() < 0.6
+        if rng.random() < 0.35:
+            # several small grain tables, some of them absent
+            grain = rng.choice([1, 2, 8])
+            ngte = rng.choice([64, 128])
+            cap = grain * ngte * rng.randrange(2, 7) + rng.randrange(0, grain * ngte)
         ngr = -(-cap // grain)
-        st = [rng.choice("AAUZ" if zero_gte else "AAU") for _ in range(ngr)]
+        if -(-ngr // ngte) >= 2 and rng.random() < 0.7:
+            st = table_states(rng, ngr, ngte, "AAUZ" if zero_gte else "AAU")
+        else:
+            st = [rng.choice("AAUZ" if zero_gte else "AAU") for _ in range(ngr)]
         sf, layer, meta = w.build_hosted(
             rng, capacity=cap, grain=grain, ngte=ngte, states=st, placement=placement, tag=tag, version=rng.choice([1, 1, 2, 3]),
             zero_gte=zero_gte, redundant=rng.random() < 0.4, descriptor=desc, align_grains=rng.random() < 0.6,
@@ -144,17 +176,25 @@ def run(case: dict, ctx) -> dict:
         sf, layer, meta = w.build_stream_optimized(rng, capacity=cap, grain=grain, ngte=ngte, tag=tag, descriptor=desc,
                                                    level=rng.choice([1, 6, 9]), version=rng.choice([1, 3]))
     elif k == "cowd":
-        grain = rng.choice([1, 8, 16, 128])
-        cap = _cap(rng, grain, 4096, 12000 if grain < 16 else 70000)
+        grain = rng.choice([1, 1, 2, 8, 16, 128])
+        if grain <= 2 and rng.random() < 0.7:
+            cap = 4096 * grain * rng.randrange(2, 6) + rng.randrange(0, 4096 * grain)
+        else:
+            cap = _cap(rng, grain, 4096, 12000 if grain < 16 else 70000)
         ngr = -(-cap // grain)
-        st = {g: "A" for g in range(ngr) if rng.random() < (0.6 if ngr < 400 else 60 / ngr)}
+        if ngr > 4096:
+            st = table_states(rng, ngr, 4096, "AAU")
+        else:
+            st = {g: "A" for g in range(ngr) if rng.random() < (0.6 if ngr < 400 else 60 / ngr)}
         sf, layer, meta = w.build_cowd(rng, capacity=cap, grain=grain, states=st, placement=placement, tag=tag)
     elif k == "sesparse":
         grain = rng.choice([8, 8, 1, 16])
         gts = rng.choice([64, 64, 1, 2, 8])
         ngte = gts * 64
         cap = _cap(rng, grain, ngte, 8000)
-        sf, layer, meta = w.build_sesparse(rng, capacity=cap, grain=grain, gt_sectors=gts, placement=placement, tag=tag,
+        ngr = -(-cap // grain)
+        st = table_states(rng, ngr, ngte, "AAUFZ") if (-(-ngr // ngte) >= 2 and rng.random() < 0.6) else None
+        sf, layer, meta = w.build_sesparse(rng, capacity=cap, grain=grain, gt_sectors=gts, states=st, placement=placement, tag=tag,
                                            big_index=rng.random() < 0.6)
     elif k == "flat":
         cap = rng.choice([1, 15, 16, 17, rng.randrange(1, 3000)])
@@ -189,6 +229,14 @@ def run(case: dict, ctx) -> dict:
     if k == "bigcap":
         extra = [g * gb for g in st] + [(g + 1) * gb for g in st] + [1 << 41]
     reqs, exhaustive = gen_requests(rng, size, units, n_random=40 if quick else 150, max_len=1 << 20, extra=extra)
+    if len(units) > 1 and units[1] < size and k != "bigcap":
+        # start somewhere inside one grain table's range and run past its end (and the next one's)
+        cov = units[1]
+        for _ in range(12):
+            t = rng.randrange(0, max(1, size // cov))
+            a = t * cov + rng.randrange(0, cov)
+            reqs.append((a, min(rng.randrange(cov // 2, 2 * cov + 2), 3 << 20)))
+        res["cnt"]["table_crossing_requests"] = 12
     compare_reads(v, model, reqs, res, MECH)
     # sector interface
     total = meta["capacity"]
@@ -223,6 +271,8 @@ def run(case: dict, ctx) -> dict:
     if k == "stream":
         res["cnt"]["multi_sector_compressed_grains"] = meta["multi_sector_grains"]
         res["cnt"]["incompressible_grains"] = meta["incompressible_grains"]
+        res["cnt"]["tuned_grains_ending_near_sector_boundary"] = meta["tuned_grains"]
+        res["sets"]["marker+stream_end_residues_mod_512"] = meta["end_residues"]
     if k == "sesparse":
         res["cnt"]["sesparse_big_index_cases"] = int(meta["max_index"] >= 4096)
     states = meta.get("states") or ""
